@@ -12,6 +12,11 @@ let split_on_bar (fields : string list) : string list list =
   go [] [] fields
 
 let () =
+  (* c06_fl_json FL -> s<hex> | none : NumJson.fl_to_json, the model of json.Marshal(float64) *)
+  register "c06_fl_json" (fun a ->
+    match fl_to_json (fl_of (Sexp.parse (String.concat " " a))) with
+    | Some s -> ["s" ^ hex_of_bstr s]
+    | None -> ["none"]);
   (* c06_range <#i> <#limit> <#step> -> outcome, then #len and the elements *)
   register "c06_range" (fun a ->
     match a with
